@@ -56,7 +56,7 @@ func (safeStrerT) SafeValue()       {}
 func (s safeStrerT) String() string { return "SS<" + s.s + ">" }
 func (c05safeKey) SafeValue()       {}
 
-var c05RegTypes = [][]reflect.Type{{reflect.TypeOf(regIntT(0))}, {reflect.TypeOf(regStrT2(""))}, {reflect.TypeOf(regStrerT{}), reflect.TypeOf(regIntStrerT(0))}}
+var c05RegTypes = [][]reflect.Type{{reflect.TypeOf(regIntT(0)), reflect.TypeOf(dblSafeT(0)), reflect.TypeOf(dblSafeStrT{})}, {reflect.TypeOf(regStrT2(""))}, {reflect.TypeOf(regStrerT{}), reflect.TypeOf(regIntStrerT(0))}}
 
 func c05SetConfig(cfg int) {
 	rfmt.VerifResetSafeTypes()
@@ -102,6 +102,7 @@ type c05Leaf struct {
 	Safe     bool        // classification (may depend on the registry configuration)
 	RegIdx   int         // >=0: safe iff registered in the configuration
 	Stringer bool        // leaf only under verbs that call String()
+	GoStr    bool        // leaf only under %#v (GoString)
 }
 
 var c05LeafCache = c05MakeLeaves()
@@ -140,6 +141,8 @@ func c05MakeLeaves() []c05Leaf {
 	add(c05Leaf{Name: "unsafe Stringer", Redact: strT{"sx"}, Fmt: strT{"sx"}, RegIdx: -1, Stringer: true})
 	add(c05Leaf{Name: "Safe(Stringer)", Redact: redact.Safe(strT{"sx"}), Fmt: strT{"sx"}, Safe: true, RegIdx: -1, Stringer: true})
 	add(c05Leaf{Name: "SafeValue Stringer", Redact: safeStrerT{"q"}, Fmt: safeStrerT{"q"}, Safe: true, RegIdx: -1, Stringer: true})
+	add(c05Leaf{Name: "unsafe GoStringer", Redact: goT{"gs"}, Fmt: goT{"gs"}, RegIdx: -1, GoStr: true})
+	add(c05Leaf{Name: "Safe(GoStringer)", Redact: redact.Safe(goT{"gs"}), Fmt: goT{"gs"}, Safe: true, RegIdx: -1, GoStr: true})
 	add(c05Leaf{Name: "unsafe Formatter(io.WriteString)", Redact: fmtWST{"wp"}, Fmt: fmtWST{"wp"}, RegIdx: -1})
 	add(c05Leaf{Name: "unsafe Formatter(Fprintf)", Redact: fmtT{"fp"}, Fmt: fmtT{"fp"}, RegIdx: -1})
 	add(c05Leaf{Name: "registrable int", Redact: regIntT(5), Fmt: regIntT(5), RegIdx: 0})
@@ -151,6 +154,10 @@ func c05MakeLeaves() []c05Leaf {
 	add(c05Leaf{Name: "SafeValue int Stringer", Redact: safeIntStrerT(9), Fmt: safeIntStrerT(9), Safe: true, RegIdx: -1})
 	add(c05Leaf{Name: "unsafe error", Redact: errT{"ue"}, Fmt: errT{"ue"}, RegIdx: -1, Stringer: true})
 	add(c05Leaf{Name: "SafeValue error", Redact: safeErrT{"se"}, Fmt: safeErrT{"se"}, Safe: true, RegIdx: -1, Stringer: true})
+	add(c05Leaf{Name: "SafeValue + registrable int", Redact: dblSafeT(6), Fmt: dblSafeT(6), Safe: true, RegIdx: -1})
+	add(c05Leaf{Name: "SafeValue + registrable Stringer", Redact: dblSafeStrT{"d"}, Fmt: dblSafeStrT{"d"}, Safe: true, RegIdx: -1, Stringer: true})
+	add(c05Leaf{Name: "Safe(SafeValue + registrable int)", Redact: redact.Safe(dblSafeT(6)), Fmt: dblSafeT(6), Safe: true, RegIdx: -1})
+	add(c05Leaf{Name: "Unsafe(SafeValue + registrable int)", Redact: redact.Unsafe(dblSafeT(6)), Fmt: dblSafeT(6), RegIdx: -1})
 	add(c05Leaf{Name: "Unsafe(registrable int)", Redact: redact.Unsafe(regIntT(5)), Fmt: regIntT(5), RegIdx: -1})
 	add(c05Leaf{Name: "SafeFormatter", Redact: sfLeaf{"pub", "sec"}, Fmt: sfLeaf{"pub", "sec"}, Safe: true, RegIdx: -1})
 	add(c05Leaf{Name: "nil", Redact: nil, Fmt: nil, Safe: true, RegIdx: -1})
@@ -355,6 +362,9 @@ func c05Eval(cs c05Case, seen func(string)) (string, string) {
 			return "", ""
 		}
 		if (la.Stringer || (lb.Stringer && (sh.Two || cs.Shape >= 2))) && !stringerVerb(d) {
+			return "", ""
+		}
+		if (la.GoStr || (lb.GoStr && (sh.Two || cs.Shape >= 2))) && !(d.Verb == 'v' && d.Flags&4 != 0) {
 			return "", ""
 		}
 	}
